@@ -43,6 +43,50 @@ func c19(c *core.Ctx) {
 		call, ok := v.(*ssa.Call)
 		return ok && core.InfoOf(&call.Call).Name == name
 	}
+	// kindsAt: under which values of (IsClientStreaming, IsServerStreaming) of the method is `in` reached from the
+	// start of the loop iteration (or of the function, for a per-method helper)? A finite case analysis over the two
+	// flags: at every branch on one of them only the matching edge is followed.
+	// (edgeFrom, edgeTo non-nil: the CFG edge edgeFrom→edgeTo is taken, instead of `in` being reached)
+	var kindsAtEdge func(in ssa.Instruction, edgeFrom, edgeTo *ssa.BasicBlock, start core.Loc) map[string]bool
+	kindsAt := func(in ssa.Instruction, start core.Loc) map[string]bool { return kindsAtEdge(in, nil, nil, start) }
+	kindsAtEdge = func(in ssa.Instruction, edgeFrom, edgeTo *ssa.BasicBlock, start core.Loc) map[string]bool {
+		out := map[string]bool{}
+		for _, a := range []bool{false, true} {
+			for _, b := range []bool{false, true} {
+				a, b := a, b
+				edgeTaken := false
+				v := core.Walk(start, func(x ssa.Instruction) bool { return false }, func(bb *ssa.BasicBlock, si int) bool {
+					ok := true
+					if iff, isIf := bb.Instrs[len(bb.Instrs)-1].(*ssa.If); isIf {
+						f := core.CondFact(iff.Cond, si == 0)
+						if f.Op == token.ILLEGAL {
+							if isPred(f.X, "IsClientStreaming") {
+								ok = f.Neg != a
+							} else if isPred(f.X, "IsServerStreaming") {
+								ok = f.Neg != b
+							}
+						}
+					}
+					if ok && bb == edgeFrom && bb.Succs[si] == edgeTo {
+						edgeTaken = true
+					}
+					return ok
+				})
+				if (edgeFrom == nil && v[in]) || (edgeFrom != nil && edgeTaken) {
+					k := "unary"
+					switch {
+					case a:
+						k = "client-or-bidi"
+					case b:
+						k = "server-stream"
+					}
+					out[k] = true
+				}
+			}
+		}
+		return out
+	}
+	_ = kindsAt
 	branchOf := func(in ssa.Instruction) string {
 		cs := core.GuardedBy(in, func(f core.Fact) bool { return f.Op == token.ILLEGAL && !f.Neg && isPred(f.X, "IsClientStreaming") })
 		notCs := core.GuardedBy(in, func(f core.Fact) bool { return f.Op == token.ILLEGAL && f.Neg && isPred(f.X, "IsClientStreaming") })
@@ -76,18 +120,73 @@ func c19(c *core.Ctx) {
 				}
 			}
 		})
+		cntFn := gen
+		if cnt == nil {
+			// the per-method body is a helper that receives the index as a parameter: the counter lives in its caller
+			core.Instrs(gen, func(in ssa.Instruction) {
+				st, ok := in.(*ssa.Store)
+				if !ok {
+					return
+				}
+				if _, f, ok := core.FieldOf(st.Addr); !ok || !strings.Contains(f, "StreamIndex") {
+					return
+				}
+				par, isPar := st.Val.(*ssa.Parameter)
+				if !isPar {
+					return
+				}
+				idx := -1
+				for i, pp := range gen.Params {
+					if pp == par {
+						idx = i
+					}
+				}
+				for _, caller := range p.LibFuncs(genPkg) {
+					for _, cs := range core.CallsIn(caller, func(_ *ssa.Call, ci core.CallInfo) bool { return ci.Static == gen }) {
+						if idx >= 0 && idx < len(cs.Call.Args) {
+							if phi, isPhi := cs.Call.Args[idx].(*ssa.Phi); isPhi {
+								cnt, cntFn = phi, caller
+							}
+						}
+					}
+				}
+			})
+		}
 		if cnt == nil {
 			c.Undecided(gk+":counter", gen.Pos(), "the value stored into the StreamIndex data field is not a loop-carried counter (phi): unrecognised idiom (e.g. stored after the increment)")
 		} else {
-			loops := core.LoopOf(gen)
+			loops := core.LoopOf(cntFn)
+			iterStart := core.Loc{B: cnt.Block(), Idx: 0}
 			okInit, okEdges := false, true
 			why := ""
-			for i, e := range cnt.Edges {
-				pred := cnt.Block().Preds[i]
+			type cEdge struct {
+				e        ssa.Value
+				from, to *ssa.BasicBlock
+			}
+			var flat []cEdge
+			var addEdges func(phi *ssa.Phi, depth int)
+			addEdges = func(phi *ssa.Phi, depth int) {
+				for i, e := range phi.Edges {
+					if inner, isPhi := e.(*ssa.Phi); isPhi && inner != cnt && depth < 4 {
+						addEdges(inner, depth+1) // a merge inside the iteration: its own incoming edges decide
+						continue
+					}
+					flat = append(flat, cEdge{e, phi.Block().Preds[i], phi.Block()})
+				}
+			}
+			addEdges(cnt, 0)
+			for _, ce := range flat {
+				e, pred := ce.e, ce.from
 				last := pred.Instrs[len(pred.Instrs)-1]
 				if k, isC := core.ConstInt(e); isC {
 					// the initial edge: constant 0, coming from a block inside the services loop (so per service)
-					if k == 0 && loops[pred] >= 0 && loops[pred] != loops[cnt.Block()] || (k == 0 && loops[pred] >= 0) {
+					perServiceFn := false
+					for _, pp := range cntFn.Params {
+						if strings.HasSuffix(core.TypeStr(pp.Type()), "desc.ServiceDescriptor") {
+							perServiceFn = true // the counter lives in a function that handles ONE service
+						}
+					}
+					if k == 0 && loops[pred] >= 0 && loops[pred] != loops[cnt.Block()] || (k == 0 && loops[pred] >= 0) || (k == 0 && perServiceFn) {
 						okInit = true
 					} else {
 						why = fmt.Sprintf("the counter starts at %d or is not reset per service", k)
@@ -95,20 +194,23 @@ func c19(c *core.Ctx) {
 					}
 					continue
 				}
-				br := branchOf(last)
+				_ = last
+				kinds := kindsAtEdge(nil, ce.from, ce.to, iterStart)
 				if e == ssa.Value(cnt) {
-					if br != "unary" {
-						okEdges = false
-						why = "the counter is left unchanged on the " + br + " branch (that streaming method and all later ones would use a wrong Streams index)"
+					for k := range kinds {
+						if k != "unary" {
+							okEdges = false
+							why = "the counter is left unchanged on the " + k + " branch (that streaming method and all later ones would use a wrong Streams index)"
+						}
 					}
 					continue
 				}
 				bo, isBo := e.(*ssa.BinOp)
 				if isBo && bo.Op == token.ADD && bo.X == ssa.Value(cnt) {
 					if k, isC := core.ConstInt(bo.Y); isC && k == 1 {
-						if br == "unary" || br == "?" {
+						if kinds["unary"] || len(kinds) == 0 {
 							okEdges = false
-							why = "the counter is incremented on the " + br + " branch (unary methods do not occupy a Streams slot)"
+							why = "the counter is incremented for unary methods (they do not occupy a Streams slot)"
 						}
 						continue
 					}
@@ -180,16 +282,18 @@ func c19(c *core.Ctx) {
 		// computed by the same function (the legacy_desc_names option changes both or neither)
 		{
 			regFeed := ""
-			for _, pc := range core.CallsIn(gen, func(call *ssa.Call, ci core.CallInfo) bool {
-				for _, a := range call.Call.Args {
-					if f, ok := core.ConstString(a); ok && strings.Contains(f, "RegisterService(&%s") {
-						return true
+			for _, gf := range p.LibFuncs(genPkg) {
+				for _, pc := range core.CallsIn(gf, func(call *ssa.Call, ci core.CallInfo) bool {
+					for _, a := range call.Call.Args {
+						if f, ok := core.ConstString(a); ok && strings.Contains(f, "RegisterService(&%s") {
+							return true
+						}
 					}
-				}
-				return false
-			}) {
-				if args, ok := core.VariadicArgs(pc.Call.Args[len(pc.Call.Args)-1]); ok && len(args) >= 1 {
-					regFeed = describeFeed(args[0])
+					return false
+				}) {
+					if args, ok := core.VariadicArgs(pc.Call.Args[len(pc.Call.Args)-1]); ok && len(args) >= 1 {
+						regFeed = describeFeed(args[0])
+					}
 				}
 			}
 			if regFeed == "" {
@@ -205,18 +309,20 @@ func c19(c *core.Ctx) {
 		{
 			// the call that is given the function's name "RegisterHandler<Svc>" (Sprintf or concatenation)
 			var regs []*ssa.Call
-			for _, sp := range core.CallsIn(gen, func(call *ssa.Call, _ core.CallInfo) bool {
-				for _, a := range call.Call.Args {
-					if core.TypeStr(a.Type()) != "string" {
-						continue
+			for _, gf := range p.LibFuncs(genPkg) {
+				for _, sp := range core.CallsIn(gf, func(call *ssa.Call, _ core.CallInfo) bool {
+					for _, a := range call.Call.Args {
+						if core.TypeStr(a.Type()) != "string" {
+							continue
+						}
+						if f, fa, ok := core.FormatOf(a); ok && len(fa) >= 1 && strings.HasPrefix(f, "RegisterHandler%") {
+							return true
+						}
 					}
-					if f, fa, ok := core.FormatOf(a); ok && len(fa) >= 1 && strings.HasPrefix(f, "RegisterHandler%") {
-						return true
-					}
+					return false
+				}) {
+					regs = append(regs, sp)
 				}
-				return false
-			}) {
-				regs = append(regs, sp)
 			}
 			key := gk + ":registration-for-every-service"
 			if len(regs) == 0 {
@@ -233,7 +339,25 @@ func c19(c *core.Ctx) {
 					}
 				}
 				if hdr == nil {
-					c.Fail(key, reg.Pos(), "the registration function is not emitted inside a per-service loop")
+					// emitted by a function that handles ONE service: every exit of that function passes the emission
+					rf := reg.Parent()
+					perService := false
+					for _, pp := range rf.Params {
+						if strings.HasSuffix(core.TypeStr(pp.Type()), "desc.ServiceDescriptor") {
+							perService = true
+						}
+					}
+					if !perService {
+						c.Fail(key, reg.Pos(), "the registration function is not emitted inside a per-service loop")
+						continue
+					}
+					okAll := true
+					for _, r := range core.Returns(rf) {
+						if !core.MustPass(core.Entry(rf), r, func(in ssa.Instruction) bool { return in == ssa.Instruction(reg) }) {
+							okAll = false
+						}
+					}
+					c.Check(okAll, key, reg.Pos(), "the per-service function emits RegisterHandler<Svc> on every path", "the per-service function can return without emitting RegisterHandler<Svc> (a skip before the emission): such a service gets no registration function")
 					continue
 				}
 				okAll := true
